@@ -6,6 +6,8 @@ import _ "unsafe"
 // infrastructure budget of a run; never for a decision of the simulation).
 //
 //go:linkname runtimeNano runtime.nanotime
+//go:norace
 func runtimeNano() int64
 
+//go:norace
 func nowReal() int64 { return runtimeNano() }
